@@ -1,5 +1,7 @@
-\* named deviation: the cursor step skin.rs used before commit 1a36590 (40 bytes per 48-byte submesh); TLC is EXPECTED to report CursorIsEmitted violated
+\* named deviation (must be refuted): cursor step of skin.rs before 1a36590 (40 bytes per 48-byte submesh) -> CursorIsEmitted violated
 CONSTANT SubmeshStep = 40
+CONSTANT AnimBoneRule = "table"
+CONSTANT ViewBatchBytes = 24
 INIT Init
 NEXT Next
 INVARIANT CursorIsEmitted
